@@ -12,6 +12,32 @@ fn main() {
         eprintln!("usage: pv <ID> <quick|thorough> --seed N --build TAG --out FILE [--scale F] [--budget-s S] [--known FILE] [--replay FILE]");
         std::process::exit(2);
     }
+    if args[1] == "gen" {
+        // pv gen <file.par> <outdir> <k> : what a build.rs does, in a fresh process
+        let k: usize = args[4].parse().unwrap();
+        let out = std::path::PathBuf::from(&args[3]);
+        std::fs::create_dir_all(&out).unwrap();
+        let r = (|| -> Result<(), Box<dyn std::error::Error>> {
+            let mut b = parol::build::Builder::with_explicit_output_dir(&out);
+            b.grammar_file(&args[2])
+                .expanded_grammar_output_file("expanded.par")
+                .parser_output_file("parser.rs")
+                .actions_output_file("trait.rs")
+                .user_type_name("Pv")
+                .user_trait_module_name("pv_grammar")
+                .set_cargo_integration(false);
+            b.max_lookahead(k)?;
+            b.generate_parser()?;
+            Ok(())
+        })();
+        match r {
+            Ok(()) => std::process::exit(0),
+            Err(e) => {
+                eprintln!("gen error: {e}");
+                std::process::exit(4)
+            }
+        }
+    }
     if args[1] == "dbg" {
         // pv dbg <file.par> <k> [inputs...]
         let text = std::fs::read_to_string(&args[2]).unwrap();
